@@ -380,6 +380,9 @@ func (wk *sysWorker) execRun(r SysRun, w *world.World, d *world.Device, observe 
 		if r.Class == "none" || r.Type != int(m.typ) || r.Occ != o {
 			return
 		}
+		if Inspect(m.orig).Form == "other" {
+			return // not a COSE object at all: the enc event carries the form, Tunnel_Trace rejects it
+		}
 		var other []byte
 		if ref := wk.ref[r.Suite+"|"+r.Cipher]; ref != nil {
 			other = ref[fmt.Sprintf("%d/%d", m.typ, o)]
